@@ -164,6 +164,26 @@ SIM_TEMPLATES = {
   c = (1-s)*pw(k, 0.5);
 """, flags=dict(linear=False, flat=True), base=dict(a=0.6, kss=2.0, s=0.3), vary=dict(a=(0.2, 0.9), kss=(1.0, 4.0), s=(0.1, 0.5)),
                init=dict(k=2.0, c=1.0), shock="ek", watch=("k", "c"), portable=False, context=True),
+    # linear flat model with a !steady_autovalues section (parameters updated from the steady state by steady())
+    "A1": dict(src="""
+!transition_variables
+  x, y
+!transition_shocks
+  ex
+!parameters
+  rho, ssx, ssy, ytox
+!transition_equations
+  x = rho*x[-1] + (1-rho)*ssx + ex;
+  y = 0.5*y[-1] + x;
+!measurement_variables
+  oy
+!measurement_equations
+  oy = y - ssy;
+!steady_autovalues
+  ssy = y;
+  ytox = y / x[-1];
+""", flags=dict(linear=True, flat=True), base=dict(rho=0.5, ssx=3.0), vary=dict(rho=(0.1, 0.9), ssx=(0.5, 4.0)),
+               init={}, shock="ex", watch=("x", "y", "oy"), portable=True),
     # deterministic linear model (no std parameters)
     "D1": dict(src="""
 !transition-variables
@@ -180,6 +200,15 @@ SIM_TEMPLATES = {
 }
 
 SEQ_TEMPLATES = {
+    # written in non-sequential order: reorder_equations / sequentialize renumber the quantities
+    "S3": dict(src="""
+!equations
+  z = x + 2*y + p;
+  y = q*x + 1;
+  x = 0.5*x[-1] + 10;
+!parameters
+  p, q
+""", params=("p", "q"), names=("x", "y", "z", "res_x", "res_y", "res_z"), watch=("x", "y", "z"), neq=3),
     "S1": dict(src="""
 !equations
   a = 0.5*a[-1] + p*b[-1] + res_a;
@@ -389,6 +418,8 @@ def observe(m) -> dict:
         out["equations"] = list(m.get_equations())
         out["parameters"] = _databox_values(m.get_parameters(unpack_singleton=False))
         out["lhs_names"] = list(m.lhs_names)
+        out["equation_strings"] = list(m.equation_strings)
+        out["is_sequential"] = bool(m.is_sequential)
     else:
         out["names"] = list(m.get_names())
         out["order"] = m.order
@@ -397,6 +428,37 @@ def observe(m) -> dict:
             sys_.append({n: _f(getattr(s, n)) for n in ("A", "B", "c", "cov_residuals")})
         out["systems"] = sys_
         out["fitted"] = [[str(p) for p in v.fitted_periods] for v in m._variants]
+    return out
+
+
+def seq_simulation(m, spec):
+    T = SEQ_TEMPLATES[spec["template"]]
+    span = _span()
+    res = m.simulate(seq_data(spec, T), span, when_nonfinite="silent")
+    res = res[0] if isinstance(res, tuple) else res
+    return _sim_out(res, T["watch"], span)
+
+
+def var_simulation(m, spec):
+    import irispie as ir
+    a = spec["nobs"]
+    span = ir.Span(_period(a), _period(a + 3))
+    res = m.simulate(var_data(spec), span)
+    res = res[0] if isinstance(res, tuple) else res
+    return _sim_out(res, [f"y{i}" for i in range(spec["ny"])], span)
+
+
+def observe_full(m, spec) -> dict:
+    """the getters plus, where it is cheap (Sequential, RedVAR), what the model simulates on fixed data"""
+    out = observe(m)
+    try:
+        with quiet():
+            if spec["kind"] == "seq":
+                out["simulation"] = seq_simulation(m, spec)
+            elif spec["kind"] == "var":
+                out["simulation"] = var_simulation(m, spec)
+    except Exception as e:  # noqa
+        out["simulation"] = f"<{type(e).__name__}: {str(e)[:80]}>"
     return out
 
 
@@ -466,10 +528,14 @@ def gen_ops(rng, spec, n, nv_now=None) -> list:
             if r < 0.4:
                 nm = rng.choice(T["params"])
                 ops.append({"op": "assign", "values": {nm: _rnd(rng, 0.05, 0.9)}, "variant": rng.choice([None, 0, 0, 1, 2])})
-            elif r < 0.6:
+            elif r < 0.55:
                 ops.append({"op": "alter", "n": rng.choice([1, 2, 3])})
-            elif r < 0.9:
+            elif r < 0.75:
                 ops.append({"op": "simulate"})
+            elif r < 0.85:
+                ops.append({"op": "reorder", "seed": rng.randint(0, 10 ** 6)})
+            elif r < 0.92:
+                ops.append({"op": "sequentialize"})
             else:
                 ops.append({"op": "describe", "text": rng.choice(["changed", "", "other text"])})
         else:
@@ -538,23 +604,22 @@ def apply_op(m, op, spec):
                         m[v].assign(**op["values"])
                     return None
                 if o == "simulate":
-                    span = _span()
-                    db = seq_data(spec, T)
-                    res = m.simulate(db, span)
-                    res = res[0] if isinstance(res, tuple) else res
-                    return _sim_out(res, T["watch"], span)
+                    return seq_simulation(m, spec)
+                if o == "reorder":
+                    import random as _random
+                    n = m.num_equations
+                    order = _random.Random(op["seed"]).sample(range(n), n)
+                    m.reorder_equations(order)
+                    return order
+                if o == "sequentialize":
+                    return [int(i) for i in m.sequentialize()]
             else:
                 if o == "estimate":
                     db = var_data(spec, op["shift"], nv=m.num_variants)
                     m.estimate(db, ir.Span(_period(0), _period(op["len"] - 1)))
                     return None
                 if o == "simulate":
-                    db = var_data(spec)
-                    a = spec["nobs"]
-                    span = ir.Span(_period(a), _period(a + 3))
-                    res = m.simulate(db, span)
-                    res = res[0] if isinstance(res, tuple) else res
-                    return _sim_out(res, [f"y{i}" for i in range(spec["ny"])], span)
+                    return var_simulation(m, spec)
                 if o == "moments":
                     return {"acov": _f([np.asarray(a) for a in m.get_acov(up_to_order=1, unpack_singleton=False)[0]]),
                             "eig": _f(m.get_eigenvalues(unpack_singleton=False)),
@@ -722,7 +787,7 @@ def run_flow(spec, how, hist, work, graphs: list, stats: dict):
     g0 = Graph(m, c)
     graphs.append({"where": f"{cls}:{how}:fresh", "spec": spec, "graph": g0})
     frozen0 = g0.frozen_snapshot()
-    d = first_diff(observe(m), observe(c))
+    d = first_diff(observe_full(m, spec), observe_full(c, spec))
     stats["equiv_checks"] += 1
     if d:
         fail(f"equivalence:{cls}:{how}:fresh", f"{cls}: the {how} clone differs from the original at {d}", d, "identical observables")
@@ -733,9 +798,9 @@ def run_flow(spec, how, hist, work, graphs: list, stats: dict):
         res = {}
         for who in order:
             other = "clone" if who == "orig" else "orig"
-            before = observe(sides[other])
+            before = observe_full(sides[other], spec)
             res[who] = apply_op(sides[who], op, spec)
-            after = observe(sides[other])
+            after = observe_full(sides[other], spec)
             stats["interference_checks"] += 1
             dd = first_diff(before, after)
             if dd:
@@ -747,7 +812,7 @@ def run_flow(spec, how, hist, work, graphs: list, stats: dict):
             stats["op_errors"] += 1
         dd = first_diff(res["orig"], res["clone"])
         if dd is None:
-            dd = first_diff(observe(m), observe(c))
+            dd = first_diff(observe_full(m, spec), observe_full(c, spec))
         stats["equiv_checks"] += 1
         if dd:
             fail(f"equivalence:{cls}:{how}:{op['op']}",
@@ -758,9 +823,9 @@ def run_flow(spec, how, hist, work, graphs: list, stats: dict):
     for who, ops in (("orig", hist["only_orig"]), ("clone", hist["only_clone"])):
         other = "clone" if who == "orig" else "orig"
         for step, op in enumerate(ops):
-            before = observe(sides[other])
+            before = observe_full(sides[other], spec)
             apply_op(sides[who], op, spec)
-            after = observe(sides[other])
+            after = observe_full(sides[other], spec)
             stats["interference_checks"] += 1
             stats["ops"][op["op"]] = stats["ops"].get(op["op"], 0) + 1
             dd = first_diff(before, after)
@@ -778,9 +843,15 @@ def run_flow(spec, how, hist, work, graphs: list, stats: dict):
 
 def gen_history(rng, spec, scale=1.0) -> dict:
     n1 = rng.randint(3, max(3, int(8 * scale)))
-    return {"common": gen_ops(rng, spec, n1), "order": [rng.randint(0, 1) for _ in range(n1)],
-            "only_orig": gen_ops(rng, spec, rng.randint(2, max(2, int(6 * scale)))),
-            "only_clone": gen_ops(rng, spec, rng.randint(2, max(2, int(6 * scale))))}
+    h = {"common": gen_ops(rng, spec, n1), "order": [rng.randint(0, 1) for _ in range(n1)],
+         "only_orig": gen_ops(rng, spec, rng.randint(2, max(2, int(6 * scale)))),
+         "only_clone": gen_ops(rng, spec, rng.randint(2, max(2, int(6 * scale))))}
+    if spec["kind"] == "seq":
+        # structural operations on ONE side only: the other side must keep its equation order and its simulation
+        for side in ("only_orig", "only_clone"):
+            extra = {"op": "sequentialize"} if rng.random() < 0.4 else {"op": "reorder", "seed": rng.randint(0, 10 ** 6)}
+            h[side].insert(rng.randint(0, len(h[side])), extra)
+    return h
 
 
 def _flow_all(ctx):
@@ -797,8 +868,12 @@ def _flow_all(ctx):
         if i < len(combos):
             kind_i, how = combos[i]
         else:
-            kind_i, how = kinds[i % len(kinds)], rng.choice(CLONE_METHODS)
+            kind_i = kinds[i % len(kinds)]
+            how = rng.choice(CLONE_METHODS + (("copy", "copy", "deepcopy") if kind_i == "seq" else ()))
         spec = gen_spec(rng, kind_i)
+        if kind_i == "seq" and i < len(combos):
+            spec = dict(spec, template="S3")     # written in non-sequential order
+            spec["params"] = {n: [_rnd(rng, 0.05, 0.9) for _ in range(spec["nv"])] for n in SEQ_TEMPLATES["S3"]["params"]}
         hist = gen_history(rng, spec)
         nm = spec.get("template", "RedVAR")
         stats["models"][nm] = stats["models"].get(nm, 0) + 1
@@ -1142,8 +1217,10 @@ def correspondence(ctx) -> CorrResult:
     nport = ctx.scale(40, 800)
     pitems, pmeta = [], []
     perr = 0
-    for _ in range(nport):
+    for ip in range(nport):
         spec = gen_spec(rng, "sim")
+        if ip % 4 == 0:
+            spec = dict(spec, template="A1", params={})      # a model with !steady_autovalues (#A) equations
         if not SIM_TEMPLATES[spec["template"]]["portable"]:
             spec["template"] = "L1"
             spec["params"] = {}
@@ -1370,6 +1447,15 @@ def check_portable(spec, work, info) -> list:
                                  f"{type(e).__name__}: {e}"[:300], "the same model"))
             continue
         P, Q = _norm(p), _norm(q)
+        # what the rebuilt model shows through its getters: names, kinds, log status, descriptions, equations of ALL kinds
+        # (transition, measurement, steady autovalues), flags
+        om, on = observe(m), observe(n)
+        for part in ("description", "flags", "quantities", "equations", "num_variants"):
+            if om[part] != on[part]:
+                missing = [e for e in om[part] if e not in on[part]] if isinstance(om[part], list) else None
+                fails.append(Failure(f"portable:model-{part}:{via}",
+                                     f"the {part} of the model rebuilt by from_portable ({via}) differ from the original's"
+                                     + (f"; missing: {missing}" if missing else ""), inp, on[part], om[part]))
         for part, key in (("flags", "portable:flags"), ("quantities", "portable:quantities"), ("equations", "portable:equations"),
                           ("description", "portable:description"), ("context", "portable:context")):
             if P["source"][part] != Q["source"][part]:
@@ -1390,10 +1476,12 @@ def check_portable(spec, work, info) -> list:
                     fails.append(Failure(f"portable:changes:{via}", f"steady-state changes stored in the portable representation are "
                                          f"lost by from_portable ({via})", inp, vq, vp))
                     break
-        # the rebuilt model behaves like the original: steady + solve + simulate
+        # the rebuilt model behaves like the original: assign new parameter values, steady, solve, simulate
         if not fails:
             a, b = m.copy(), n
-            for op in ({"op": "steady"}, {"op": "solve"}, {"op": "simulate", "size": 0.5, "ant": False, "at": 1}):
+            new_values = {nm: round((lo + hi) / 2 + 0.137 * (hi - lo) / 2, 3) for nm, (lo, hi) in T["vary"].items()}
+            for op in ({"op": "steady"}, {"op": "solve"}, {"op": "assign", "values": new_values}, {"op": "steady"},
+                       {"op": "solve"}, {"op": "simulate", "size": 0.5, "ant": False, "at": 1}):
                 ra, rb = apply_op(a, op, spec), apply_op(b, op, spec)
                 if first_diff(ra, rb):
                     fails.append(Failure(f"portable:behaviour:{via}", f"the model rebuilt from the portable representation ({via}) "
@@ -1405,7 +1493,30 @@ def check_portable(spec, work, info) -> list:
                                {k: ob[k] for k in ("parameters", "stds", "levels", "solutions")})
                 if d:
                     fails.append(Failure(f"portable:behaviour:{via}", f"the model rebuilt from the portable representation ({via}) "
-                                         f"differs after steady+solve at {d}", inp, d, "identical observables"))
+                                         f"differs after assign({new_values})+steady+solve at {d}", inp, d, "identical observables"))
+    return fails
+
+
+def check_sequential_structure(spec, how, seed, work, info) -> list:
+    """reordering the equations of one of (original, clone) must leave the other's equations and simulation alone"""
+    info["structure_checks"] = info.get("structure_checks", 0) + 1
+    fails = []
+    m = build(spec)
+    try:
+        c = clone(m, how, work)
+    except Exception:  # reported by the flow
+        return fails
+    for actor, other, who in ((c, m, "clone"), (m, c, "original")):
+        for op in ({"op": "sequentialize"}, {"op": "reorder", "seed": seed}, {"op": "assign", "values": {SEQ_TEMPLATES[spec["template"]]["params"][0]: 0.77}}):
+            before = observe_full(other, spec)
+            apply_op(actor, op, spec)
+            d = first_diff(before, observe_full(other, spec))
+            if d:
+                fails.append(Failure(f"independence:Sequential:{how.replace('_file', '')}:{op['op']}",
+                                     f"Sequential: {op['op']} on the {who} changed the other model (clone by {how}) at {d}",
+                                     {"spec": spec, "clone": how, "seed": seed, "structure_check": True, "op": op, "acted_on": who},
+                                     d, "no change of the other model's equations, names and simulation"))
+                return fails
     return fails
 
 
@@ -1426,8 +1537,21 @@ def falsify(ctx, hints):
         except Exception as e:  # noqa
             fails.append(Failure(f"harness:variant:{type(e).__name__}", f"variant check raised {type(e).__name__}: {str(e)[:200]}",
                                  {"spec": spec, "op": op}))
-    for _ in range(ctx.scale(25, 600)):
+    for i in range(ctx.scale(18, 400)):
+        spec = gen_spec(rng, "seq")
+        if i % 2 == 0:
+            spec = dict(spec, template="S3")
+            spec["params"] = {n: [_rnd(rng, 0.05, 0.9) for _ in range(spec["nv"])] for n in SEQ_TEMPLATES["S3"]["params"]}
+        how, seed = CLONE_METHODS[i % len(CLONE_METHODS)], rng.randint(0, 10 ** 6)
+        try:
+            fails += check_sequential_structure(spec, how, seed, ctx.work, info)
+        except Exception as e:  # noqa
+            fails.append(Failure(f"harness:structure:{type(e).__name__}", f"structure check raised {type(e).__name__}: {str(e)[:200]}",
+                                 {"spec": spec, "clone": how, "seed": seed}))
+    for i in range(ctx.scale(25, 600)):
         spec = gen_spec(rng, "sim")
+        if i % 4 == 0:
+            spec = dict(spec, template="A1", params={})      # steady autovalues
         try:
             fails += check_portable(spec, ctx.work, info)
         except Exception as e:  # noqa
@@ -1448,7 +1572,9 @@ def replay(ctx, failure: dict):
     key = failure["key"]
     info = {"variant_checks": 0, "portable_checks": 0}
     fs = []
-    if "history" in inp:
+    if inp.get("structure_check"):
+        fs = check_sequential_structure(inp["spec"], inp["clone"], inp["seed"], ctx.work, info)
+    elif "history" in inp:
         stats = {"equiv_checks": 0, "interference_checks": 0, "ops": {}, "op_errors": 0}
         fs = [Failure(f["key"], f["what"], f["input"], f["observed"], f["required"])
               for f in run_flow(inp["spec"], inp["clone"], inp["history"], ctx.work, [], stats)]
